@@ -3,7 +3,7 @@ import CruxVerif.Spec.Codegen
 
   case   : `reg <fixture> <variant> #x <registry> #d <description>`        (registry = the real CLI's for the ORIGINAL fixture)
            `proto <fixture> <Type> #t <container> #d <description>`        (container = traced from the real type)
-  observation : `ok <registry>` | `ok <container>` | `missing` | `invalid-order` | `err …` | `panic …` | `nondet` | …
+  observation : `ok <registry>` | `ok <container>` | `missing` | `err …` | `panic …` | `nondet` | …
 
   description : `#d <n> crate*`
   crate   : `crate <name> <n> item* <n> summary* <n> ext*`
@@ -214,8 +214,24 @@ def regEntry : P (String × Container) := fun ts => do
 
 def registryP : P Reg := counted regEntry
 
+/-- an observation, as far as it can be read without knowing the case: registries only -/
+def parseRegObs (ts : List String) : Obs :=
+  match ts with
+  | "ok" :: ts => match registryP ts with | some (r, []) => .reg r | _ => .other "unparseable"
+  | ["missing"] => .missing
+  | cls :: _ => .other cls
+  | [] => .other "empty"
+
+def splitAt (mark : String) : List String → List String × List String
+  | [] => ([], [])
+  | t :: ts => if t == mark then ([], t :: ts) else let (a, b) := splitAt mark ts; (t :: a, b)
+
 def parseCase (line : String) : Option Case :=
   match line.splitOn " " with
+  | "syn" :: fixture :: variant :: "#x" :: ts => do
+    let (exp, ts) := splitAt "#d" ts
+    let (avail, ts) ← description ts
+    if ts.isEmpty then pure (.syn fixture variant (parseRegObs exp) avail) else none
   | "reg" :: fixture :: variant :: "#x" :: ts => do
     let (expected, ts) ← registryP ts
     let (avail, ts) ← description ts
@@ -230,10 +246,9 @@ def parseObs (c : Case) (line : String) : Obs :=
   match line.splitOn " " with
   | "ok" :: ts =>
     match c with
-    | .reg .. => match registryP ts with | some (r, []) => .reg r | _ => .other "unparseable"
+    | .reg .. | .syn .. => match registryP ts with | some (r, []) => .reg r | _ => .other "unparseable"
     | .proto .. => match container ts with | some (k, []) => .container k | _ => .other "unparseable"
   | ["missing"] => .missing
-  | ["invalid-order"] => .invalidOrder
   | cls :: _ => .other cls
   | [] => .other "empty"
 
@@ -283,10 +298,12 @@ def showReg (r : Reg) : String := escToks (Reg.toks (r.map fun e => (esc e.1, es
 def rootOf : Case → String
   | .reg f .. => f
   | .proto f .. => f
+  | .syn f .. => f
 
 def availOf : Case → List Crate
   | .reg _ _ _ a => a
   | .proto _ _ _ a => a
+  | .syn _ _ _ a => a
 
 /-- ids are unique per crate (rustdoc's `index` is a map), crate names are distinct and child id lists are duplicate
     free: the well-formedness every theorem about a description assumes; a case violating it is not a case -/
@@ -304,6 +321,7 @@ def model (line : String) : String :=
     | .errLoad, _ => "err load"
     | .panic, _ => "panic unsupported"
     | .ok cs, .reg .. => "ok " ++ showReg (canon cs)
+    | .ok cs, .syn .. => "ok " ++ showReg (canon cs)
     | .ok cs, .proto _ t _ _ =>
       match lookup cs t with
       | some k => "ok " ++ showContainer k
